@@ -239,6 +239,10 @@ def ROUNDUP(number, digits):
             # whole numbers stay exact (beyond 2^53 the float quotient would drop the units)
             return sign * -(-abs(number) // unit) * unit
         return sign * math.ceil(abs(number) / float(unit)) * unit
+    if (isinstance(number, int) and not isinstance(number, bool)) or digits > 300 or abs(number) * 10.0**digits >= 2**53:
+        # nothing to round: a whole number, or a double that has no digits beyond the requested
+        # ones (scaling it would drop digits it does have: 4503599627370495.5 * 10 is not exact)
+        return number
     return sign * (math.ceil(abs(number) * 10**digits)) / 10**digits
 
 
@@ -258,6 +262,8 @@ def ROUNDDOWN(number, digits):
         if isinstance(number, int) and isinstance(digits, int):
             return sign * (abs(number) // unit) * unit
         return sign * math.floor(abs(number) / float(unit)) * unit
+    if (isinstance(number, int) and not isinstance(number, bool)) or digits > 300 or abs(number) * 10.0**digits >= 2**53:
+        return number
     return sign * (math.floor(abs(number) * 10**digits)) / 10**digits
 
 
